@@ -383,6 +383,8 @@ def setup(root):
         engines, harnesses, need_cli = set(), set(), False
         for p in sorted(glob.glob(os.path.join(root, "props", "C*.json"))):
             cfg = json.load(open(p))
+            if cfg.get("claimed") is False:
+                continue
             for st in cfg["stages"]:
                 if st.get("model"):
                     engines.add(st["model"])
